@@ -147,7 +147,21 @@ func (p *Proc) exec(st *State, s ast.Stmt) flow {
 	case *ast.SendStmt:
 		ec := p.ec(st)
 		p.eval(ec, x.Chan)
-		p.eval(ec, x.Value)
+		v := p.eval(ec, x.Value)
+		// ghost: number of channel sends and the last value sent (as an interface value)
+		cnt := p.heapGet(st, "G:$sendcount", SInt)
+		_ = p.heapGet(st, "G:$lastsent", SIface)
+		p.heapSet(st, "G:$sendcount", Add(cnt, IntLit(1)))
+		if v.T != nil && v.Typ != nil {
+			if isIface(v.Typ) {
+				p.heapSet(st, "G:$lastsent", v.T)
+			} else if v.T.Sort != SSlice || true {
+				func() {
+					defer func() { recover() }()
+					p.heapSet(st, "G:$lastsent", p.box(ec, v))
+				}()
+			}
+		}
 		return flow{norm: []*State{st}}
 	case *ast.SelectStmt:
 		return p.execSelect(st, x)
@@ -619,6 +633,7 @@ func (p *Proc) execSelect(st *State, x *ast.SelectStmt) flow {
 
 type loopSpec struct {
 	ord     int
+	assumes []*Clause
 	lets    []*Clause
 	invs    []*Clause
 	dec     *Clause
@@ -643,6 +658,8 @@ func (p *Proc) loopSpecFor(n ast.Node) loopSpec {
 				ls.assigns = append(ls.assigns, cl)
 			case "loop.let":
 				ls.lets = append(ls.lets, cl)
+			case "loop.assume":
+				ls.assumes = append(ls.assumes, cl)
 			}
 		}
 	}
@@ -880,7 +897,42 @@ func (p *Proc) execRange(st *State, x *ast.RangeStmt, label string) flow {
 	case *types.Map:
 		return p.execRangeMap(st, x, label, coll, ct, ls, keyObj, valObj)
 	case *types.Chan:
-		p.failf(x, "range over channel unsupported")
+		// every iteration receives an arbitrary value; the loop may end after any iteration
+		d0 := p.loopHead(st, x, x.Body, nil, ls, pos)
+		ex := st.clone()
+		exits := []*State{ex}
+		if keyObj != nil {
+			v := Val{T: p.freshConst("recv", p.ctx.sortOf(ct.Elem())), Typ: ct.Elem()}
+			p.wfAssume(st, v)
+			st.vars[keyObj] = v.T
+		}
+		for _, cl := range ls.assumes {
+			ec := p.specEc(st, pos)
+			ec.where = cl.Where
+			st.assume(p.eval(ec, cl.Expr).T)
+			p.ctx.notes["assumed at the start of every iteration of loop "+fmt.Sprint(ls.ord)+" of "+p.fi.Name+": "+cl.Text] = true
+		}
+		bf := p.exec(st, x.Body)
+		backs := bf.norm
+		for _, j := range bf.cont {
+			if j.label == "" || j.label == label {
+				backs = append(backs, j.st)
+			} else {
+				out.cont = append(out.cont, j)
+			}
+		}
+		for _, j := range bf.brk {
+			if j.label == "" || j.label == label {
+				exits = append(exits, j.st)
+			} else {
+				out.brk = append(out.brk, j)
+			}
+		}
+		for _, b := range p.merge(backs) {
+			p.loopBack(b, ls, d0, pos)
+		}
+		out.norm = p.merge(exits)
+		return out
 	}
 	p.failf(x, "unsupported range over %s", coll.Typ)
 	return out
